@@ -86,6 +86,8 @@ def build(case):
         m = cls(span, A=np.array([1.0 + i for i in range(len(span))]), X=np.arange(float(len(span))))
         scripted.arm(m, spec.get('script'))
         m.__dict__['_id'] = spec['id']
+        if 'check' in spec:
+            m.check = list(spec['check'])        # the instance's own list (the class-level CHECK is untouched)
         orig = m._evaluate
 
         def logged(t, *a, _m=m, _orig=orig, **kw):
@@ -129,8 +131,14 @@ def ref_linker(case, n):
     min_iter, max_iter = opts.get('min_iter', 0), opts.get('max_iter', 100)
     exp['log'].append(('solve_before', 0, tuple(selected)))
 
+    inst_check = {s['id']: s.get('check', ['A']) for s in case['subs']}
+
     def check():
-        return [float(lin['L'][T])] + [float(subs[sid]['A'][T]) for sid in ids if sid in selected]
+        out = [float(lin['L'][T])]
+        for sid in ids:
+            if sid in selected:
+                out += [float(subs[sid][nm][T]) if nm == 'A' else float(T) for nm in inst_check[sid]]   # X[T] = T never moves
+        return out
 
     def apply(values, toks):
         if toks:
@@ -279,6 +287,13 @@ def gen_lattice(bound):
                         yield {'subs': [{'id': 'a', 'script': sa}, {'id': 'b', 'script': sb, 'lags': 1}],
                                'linker_script': lscript, 'n': 3, 't': 1 if (min_iter + max_iter) % 2 else -2,
                                'opts': {'min_iter': min_iter, 'max_iter': max_iter, 'tol': tol, 'failures': failures}}
+        # a submodel instance whose check list was edited after construction (emptied / exogenous only / doubled)
+        for chk in ([], ['X'], ['A', 'X']):
+            for mv in (0, 2, 3):
+                sa = {'1:1': [['A', TOKS[3]]], '1:2': [['A', TOKS[mv]]]} if mv else {'1:1': [['A', TOKS[3]]]}
+                for max_iter in (1, 2, 3):
+                    yield {'subs': [{'id': 'a', 'script': sa, 'check': chk}, {'id': 'b', 'script': {}}], 'n': 3, 't': 1,
+                           'opts': {'min_iter': 0, 'max_iter': max_iter, 'tol': 0.25, 'failures': 'ignore'}}
         # selections: every subset and order of three submodels, with scripts that would be visible if evaluated
         specs = [{'id': sid, 'lags': i, 'leads': 2 - i, 'script': {'1:1': [['A', ['move', 1.0 + i]]], '1:2': [['A', ['move', 0.5]]]}}
                  for i, sid in enumerate(SUB_IDS)]
